@@ -40,6 +40,8 @@ const TOKEN: u32 = 0x5eed_00a7;
 const RESULT_VAL: u32 = 0x0dd_ba1b;
 
 struct Host {
+    /// unique first bytes: see mock_task::Globals
+    magic: u64,
     handle: u32,
     /// Last status the guest was told.
     seen: u32,
@@ -63,6 +65,7 @@ struct Host {
 }
 
 static mut H: Host = Host {
+    magic: 0x6332_315f_686f_7374,
     handle: 0,
     seen: STARTING,
     resolved_delivered: false,
@@ -182,7 +185,7 @@ unsafe impl<const SIZE: usize, const ROFF: usize> Subtask for Imp<SIZE, ROFF> {
         let h: u32 = kani::any();
         kani::assume(h >= 1 && h < (1 << 28));
         H.handle = h;
-        mt::EXPECT_WAITABLE = h;
+        mt::G.expect_waitable = h;
         st | (h << 4)
     }
 
@@ -280,7 +283,7 @@ unsafe fn step_poll<F: Future<Output = Results>>(
             None
         }
     };
-    assert!(mt::CUR == task, "wasip3_task_set cell not restored");
+    assert!(mt::G.cur == task, "wasip3_task_set cell not restored");
     r
 }
 
@@ -323,8 +326,8 @@ macro_rules! scenario {
         } else {
             (&mut t2 as *mut mt::wasip3_task_v2).cast()
         };
-        mt::CUR = task;
-        mt::CLONE_DISTINCT = if version == 1 { false } else { kani::any() };
+        mt::G.cur = task;
+        mt::G.clone_distinct = if version == 1 { false } else { kani::any() };
 
         let mut cx = Context::from_waker(Waker::noop());
         #[allow(unused_assignments, unused_mut)]
@@ -335,8 +338,8 @@ macro_rules! scenario {
             steps!(fut, cx, task, result; $($script)*);
             // `fut` is dropped here: no-op if it completed, cancellation otherwise.
         }
-        mt::OP_ALIVE = false;
-        assert!(mt::CUR == task, "wasip3_task_set cell not restored");
+        mt::G.op_alive = false;
+        assert!(mt::G.cur == task, "wasip3_task_set cell not restored");
         finish(result, version);
     }};
 }
